@@ -1862,10 +1862,20 @@ func (query *Query) exec() (result any, err error) {
 			{
 				copy := CopyQuery(query)
 				copy.from = current
+				shareSingletons(copy.singletonExecutions, query.singletonExecutions)
 				rs, err := copy.exec()
 				if err != nil {
 					return nil, err
 				}
+				shareSingletons(query.singletonExecutions, copy.singletonExecutions)
+				// the inner dimension's outstanding calls and post-processors are
+				// this query's: Exec waits for them and runs them
+				query.addPostProcessors(copy.postProcessors...)
+				query.wg.Add(1)
+				go func() {
+					copy.wg.Wait()
+					query.wg.Done()
+				}()
 				slice = append(slice, rs)
 			}
 		case Map:
@@ -2022,8 +2032,21 @@ func CopyQuery(query *Query) *Query {
 		offsetDefinition:  query.offsetDefinition,
 		orderByDefinition: query.orderByDefinition,
 		options:           query.options,
-		postProcessors:    query.postProcessors,
+		// the caller takes over what the copy registers; sharing the slice would let
+		// the copy's appends overwrite the parent's
+		postProcessors: make([]func() error, 0),
 		// every copy evaluates its own rows: it needs its own memo of whole-table aggregates
+		// (the caller shares the ONCE and GLOBAL entries with shareSingletons)
 		singletonExecutions: make(map[string]any),
+	}
+}
+
+// shareSingletons copies the results of ONCE and GLOBAL calls, which are computed
+// a single time per query, between a query and its copy for an inner dimension
+func shareSingletons(dst map[string]any, src map[string]any) {
+	for key, value := range src {
+		if strings.HasPrefix(key, "once.") || strings.HasPrefix(key, "global.") {
+			dst[key] = value
+		}
 	}
 }
